@@ -143,12 +143,23 @@ FindAll(p) ==
     /\ h' = Log([a |-> "FindAll", x |-> p, r |-> FindAllAns,
                  st |-> IF TotalEdges(Present) > BruteForceLimit THEN StAfterApply ELSE St])
 
+\* distance from a point with interiors included (a fresh EdgeQuery, but a point target object that
+\* the caller keeps and reuses through the whole history): zero iff a shape held now contains the
+\* point.  The interior step looks the point up in the cell map, so it applies pending updates.
+DistInAns(p) == IF \E s \in Present : s = "SF" \/ CentreOf[s] = p THEN "zero"
+                ELSE IF TotalEdges(Present) = 0 THEN "inf" ELSE "pos"
+DistIn(p) ==
+    /\ MaybeApplyVars
+    /\ UNCHANGED <<shapes, nextID, epoch, cpq, ceq, eff, inv, lidx>>
+    /\ h' = Log([a |-> "DistIn", x |-> p, r |-> DistInAns(p), st |-> StAfterApply])
+
 IndexNext ==
     \/ \E s \in ShapeNames : Add(s) \/ Remove(s)
     \/ Build \/ Reset \/ NewCPQ \/ NewCEQ
     \/ \E p \in Points : Contains(p)
     \/ \E e \in QEdges : Cross(e)
     \/ \E p \in {"P0", "P2"} : FindAll(p)
+    \/ \E p \in {"P1", "P2"} : DistIn(p)
 
 \* Mode = "index-q": the life of one CrossingEdgeQuery and one ContainsPointQuery object.  Each is
 \* created once and then reused while shapes are removed, added again (the same shape object gets
